@@ -182,7 +182,7 @@ func c05Ops() []c05op {
 			}
 		}
 	}
-	ops = append(ops, c05op{name: "Export(active)", kind: 'e'}, c05op{name: "Reset(ForAllRecordsDo)", kind: 'z'}, c05op{name: "Expire(inactive)", kind: 'x'})
+	ops = append(ops, c05op{name: "Export(active, no reset)", kind: 'n'}, c05op{name: "Export(active)", kind: 'e'}, c05op{name: "Reset(ForAllRecordsDo)", kind: 'z'}, c05op{name: "Expire(inactive)", kind: 'x'})
 	return ops
 }
 
@@ -434,7 +434,7 @@ func (s *c05sys) Apply(opi int) (v *xplore.Violation) {
 		for _, f := range s.model {
 			c05reset(f)
 		}
-	case 'e', 'x':
+	case 'e', 'x', 'n':
 		d := 11 * unit
 		if op.kind == 'x' {
 			d = 2000 * unit
@@ -458,6 +458,9 @@ func (s *c05sys) Apply(opi int) (v *xplore.Violation) {
 			}
 			if v := s.compare(op.name+" (exported record)", k, f, rec.Record); v != nil && cbv == nil {
 				cbv = v
+			}
+			if op.kind == 'n' {
+				return nil // an export whose callback resets nothing: the sums go on
 			}
 			if err := s.ap.ResetStatAndThroughputElementsInRecord(rec.Record); err != nil {
 				cbv = xplore.V("reset-error", "%s: %v", op.name, err)
@@ -603,7 +606,7 @@ func runC05(tier, replay string) int {
 	ev.Coverage = common.Coverage{
 		"states": states, "transitions": tot.Trans, "traces_validated_against_impl": tot.Traces, "samples": tot.Samples,
 		"evaluations": tot.Traces, "distinct_nontrivial": tot.Traces,
-		"rule":       "every history over 27 operations {record(key in {inter-node pair, intra IPv4, intra IPv6}, reporting stream, end-time step in {2,10}, counter increment in {+0, +small, +(2^56+3)}), active export with reset, reset through ForAllRecordsDo, inactive expiry} up to depth 4 (thorough: additionally depth 6 over a reduced alphabet of 11 operations); a second configuration runs the alphabet plus a two-flow message to depth 3 (thorough 4) with every record encoded by the library, decoded by a real collecting process and aggregated as delivered, generated within the statement's contract (per node: end strictly increasing, totals non-decreasing, end > start; no cross-node end-time ties); after every operation every field of every aggregated record is compared with the arithmetic model (aggmodel, DESIGN Appendix B.1). Histories are distinct by construction; distinct_nontrivial counts them (each contains at least one record or export). Thorough adds a depth-bounded BFS de-duplicated on all record values (the graph does not close: counters grow)",
+		"rule":       "every history over 28 operations {record(key in {inter-node pair, intra IPv4, intra IPv6}, reporting stream, end-time step in {2,10}, counter increment in {+0, +small, +(2^56+3)}), active export with and without reset, reset through ForAllRecordsDo, inactive expiry} up to depth 4 (thorough: additionally depth 6 over a reduced alphabet of 11 operations); a second configuration runs the alphabet plus a two-flow message to depth 3 (thorough 4) with every record encoded by the library, decoded by a real collecting process and aggregated as delivered, generated within the statement's contract (per node: end strictly increasing, totals non-decreasing, end > start; no cross-node end-time ties); after every operation every field of every aggregated record is compared with the arithmetic model (aggmodel, DESIGN Appendix B.1). Histories are distinct by construction; distinct_nontrivial counts them (each contains at least one record or export). Thorough adds a depth-bounded BFS de-duplicated on all record values (the graph does not close: counters grow)",
 		"exhaustive": tot.Exhaustive, "per_config": tot.PerCfg,
 	}
 	ev.Assumptions = []string{"common total counters: any of {latest by end time, maximum, latest by arrival} is accepted where the readings differ", "first record of a node: throughput is measured since flow start"}
